@@ -20,18 +20,6 @@ From Coq Require Import List Arith Bool PeanoNat Lia.
 From Krrood Require Import Onto.RegistrySpec.
 Import ListNotations.
 
-(* a query variable: declared (its domain generator not started), declared in a graph that was cleared since
-   (outside the model), or evaluated (the domain it cached) *)
-Inductive vstate := VPending | VStale | VCached (l : list obj).
-Definition cache_of (v : cls * vstate) : list obj := match snd v with VCached l => l | _ => [] end.
-
-Fixpoint set_nth {A} (k : nat) (x : A) (l : list A) : list A :=
-  match l, k with
-  | [], _ => []
-  | _ :: t, 0 => x :: t
-  | a :: t, S k' => a :: set_nth k' x t
-  end.
-
 Record wrapper := W { w_obj : obj; w_cls : cls; w_pyid : pyid; w_idx : idx }.
 
 Definition edge := (idx * idx * fld)%type.
@@ -145,62 +133,135 @@ Section Hier.
     end.
 
   (* ---------------------------------------------------------------- whole process *)
+  (* a live evaluation of a query over let(T, None) (it = q.evaluate(), rows requested one at a time).
+     Nothing runs before the first request.  Then: the query's variables forget what they held, the graph is swept, and
+     the registry generator is walked lazily: class by class ([T] + recursive_subclasses(T)), a snapshot of the class's
+     wrapper list when the class is reached, each wrapper dereferenced when its turn comes; the domain cache
+     (HashedIterable) skips a value whose id it has seen and keeps -- strongly -- every value it has passed on.
+     The cache belongs to this evaluation: it is dropped when the evaluation ends (exhausted, closed or finalised). *)
+  Record ev := EV {
+    e_T : cls;
+    e_started : bool;
+    e_stale : bool;                   (* the graph it enumerates was dropped by clear(): outside the model *)
+    e_classes : list cls;             (* classes not reached yet *)
+    e_cur : list wrapper;             (* rest of the snapshot of the class being walked *)
+    e_seen : list (option obj) }.     (* values passed on so far = what the cache holds *)
+
   Record st := ST {
     live : list orec;                 (* instances that exist in memory (weak-reference census) *)
-    user : list obj;                  (* instances the program still references *)
+    user : list obj;                  (* instances the program still references directly *)
     g : reg;                          (* the current SymbolGraph singleton *)
-    vars : list (cls * vstate);       (* _id_expression_map_: the variables of all queries made so far *)
+    vars : list cls;                  (* _id_expression_map_: the query objects made so far (they hold no instance) *)
+    evals : list (option ev);         (* evaluations begun with StartV; None once finished or closed *)
     next : nat }.
 
-  Definition init : st := ST [] [] empty_reg [] 0.
+  Definition init : st := ST [] [] empty_reg [] [] 0.
 
-  Definition pinned (vs : list (cls * vstate)) (o : obj) : bool :=
-    existsb (fun v => existsb (Nat.eqb o) (cache_of v)) vs.
+  (* an instance is kept alive by krrood exactly while the cache of a live evaluation holds it *)
+  Definition pinned (es : list (option ev)) (o : obj) : bool :=
+    existsb (fun e => match e with Some e => existsb (oeqb (Some o)) (e_seen e) | None => false end) es.
+
+  (* when an evaluation ends its cache is dropped: what nobody else references is reclaimed *)
+  Definition release (L : list orec) (u : list obj) (es : list (option ev)) : list orec :=
+    filter (fun x => mem_nat (o_id x) u || pinned es (o_id x)) L.
 
   Definition somes (l : list (option obj)) : list obj :=
     flat_map (fun x => match x with Some o => [o] | None => [] end) l.
+
+  (* next value of the domain: rest of the current class snapshot, then the classes not reached yet *)
+  Fixpoint pull_cur (L : list orec) (seen : list (option obj)) (cur : list wrapper) : option (option obj * list wrapper) :=
+    match cur with
+    | [] => None
+    | w :: t => let v := deref L w in if existsb (oeqb v) seen then pull_cur L seen t else Some (v, t)
+    end.
+  Fixpoint pull_classes (L : list orec) (r : reg) (seen : list (option obj)) (cs : list cls)
+    : option (option obj * list wrapper * list cls) :=
+    match cs with
+    | [] => None
+    | c :: cs' =>
+        match pull_cur L seen (filter (fun w => w_cls w =? c) (wl r)) with
+        | Some (v, t) => Some (v, t, cs')
+        | None => pull_classes L r seen cs'
+        end
+    end.
+  Definition pull (L : list orec) (r : reg) (e : ev) : option (option obj * list wrapper * list cls) :=
+    match pull_cur L (e_seen e) (e_cur e) with
+    | Some (v, t) => Some (v, t, e_classes e)
+    | None => pull_classes L r (e_seen e) (e_classes e)
+    end.
 
   Definition step (s : st) (o : op) : st * out :=
     match o with
     | New c p i =>
         let x := O (next s) c p in
-        (ST (live s ++ [x]) (user s ++ [next s]) (add_node (g s) (W (next s) c p i)) (vars s) (S (next s)), ONone)
+        (ST (live s ++ [x]) (user s ++ [next s]) (add_node (g s) (W (next s) c p i)) (vars s) (evals s) (S (next s)), ONone)
     | Drop x =>
-        (* the program lets go; the instance is reclaimed unless a cached domain still holds it *)
+        (* the program lets go; the instance is reclaimed unless the cache of a live evaluation holds it *)
         let u := filter (fun y => negb (y =? x)) (user s) in
-        if pinned (vars s) x then (ST (live s) u (g s) (vars s) (next s), ONone)
-        else (ST (filter (fun r => negb (o_id r =? x)) (live s)) u (g s) (vars s) (next s), ONone)
-    | Sweep => (ST (live s) (user s) (sweep (live s) (g s)) (vars s) (next s), ONone)
+        if pinned (evals s) x then (ST (live s) u (g s) (vars s) (evals s) (next s), ONone)
+        else (ST (filter (fun r => negb (o_id r =? x)) (live s)) u (g s) (vars s) (evals s) (next s), ONone)
+    | Sweep => (ST (live s) (user s) (sweep (live s) (g s)) (vars s) (evals s) (next s), ONone)
     | QueryG T =>
         let r := sweep (live s) (g s) in
-        (ST (live s) (user s) r (vars s) (next s), OInst (instances (live s) r T))
+        (ST (live s) (user s) r (vars s) (evals s) (next s), OInst (instances (live s) r T))
     | QueryE T =>
+        (* declared and completely evaluated at once: forget, sweep, enumerate the registry NOW, every id once;
+           when the evaluation is over the variable holds nothing *)
         let r := sweep (live s) (g s) in
-        let res := instances (live s) r T in
-        (ST (live s) (user s) r (vars s ++ [(T, VCached (dedup (somes res)))]) (next s), OInst (dedupo res))
+        (ST (live s) (user s) r (vars s ++ [T]) (evals s) (next s), OInst (dedupo (instances (live s) r T)))
     | DeclV T =>
         (* let(T, None) only creates the generator over the registry; nothing is read, nothing is held *)
-        (ST (live s) (user s) (g s) (vars s ++ [(T, VPending)]) (next s), ONone)
+        (ST (live s) (user s) (g s) (vars s ++ [T]) (evals s) (next s), ONone)
     | EvalV k =>
-        let r := sweep (live s) (g s) in
+        (* a complete evaluation of query object k, the first or a later one alike *)
         match nth_error (vars s) k with
-        | Some (T, VPending) =>
-            (* first evaluation: the registry is enumerated NOW; what was seen is cached *)
-            let res := instances (live s) r T in
-            (ST (live s) (user s) r (set_nth k (T, VCached (dedup (somes res))) (vars s)) (next s), OInst (dedupo res))
-        | Some (T, VCached l) => (ST (live s) (user s) r (vars s) (next s), OInst (map Some l))
-        | Some (T, VStale) => (s, OErr)
+        | Some T =>
+            let r := sweep (live s) (g s) in
+            (ST (live s) (user s) r (vars s) (evals s) (next s), OInst (dedupo (instances (live s) r T)))
+        | None => (s, OErr)
+        end
+    | StartV k =>
+        match nth_error (vars s) k with
+        | Some T => (ST (live s) (user s) (g s) (vars s) (evals s ++ [Some (EV T false false [] [] [])]) (next s), ONone)
+        | None => (s, OErr)
+        end
+    | NextV n _ =>
+        match nth_error (evals s) n with
+        | Some (Some e) =>
+            if e_stale e then (s, OErr) else
+            (* the first request: variables forget, the graph is swept, the generator is bound to this graph *)
+            let r := if e_started e then g s else sweep (live s) (g s) in
+            let e1 := if e_started e then e else EV (e_T e) true false (e_T e :: rsub fuel (e_T e)) [] (e_seen e) in
+            match pull (live s) r e1 with
+            | Some (v, cur, cs) =>
+                (ST (live s) (user s) r (vars s)
+                    (set_nth n (Some (EV (e_T e) true false cs cur (e_seen e1 ++ [v]))) (evals s)) (next s), OInst [v])
+            | None =>
+                (* exhausted: the evaluation is over, its cache is dropped *)
+                let es := set_nth n None (evals s) in
+                (ST (release (live s) (user s) es) (user s) r (vars s) es (next s), OInst [])
+            end
+        | Some None => (s, OInst [])        (* a finished or closed iterator just stops again *)
+        | None => (s, OErr)
+        end
+    | CloseV n =>
+        match nth_error (evals s) n with
+        | Some _ =>
+            let es := set_nth n None (evals s) in
+            (ST (release (live s) (user s) es) (user s) (g s) (vars s) es (next s), ONone)
         | None => (s, OErr)
         end
     | Relate a f b ia ib =>
         match relate (live s) (g s) a f b ia ib with
-        | (r, Some nw) => (ST (live s) (user s) r (vars s) (next s), OBool nw)
+        | (r, Some nw) => (ST (live s) (user s) r (vars s) (evals s) (next s), OBool nw)
         | (r, None) => (s, OErr)
         end
     | Clear =>
-        (* a pending generator stays bound to the dropped graph: evaluating it later is outside the model *)
-        (ST (live s) (user s) empty_reg
-            (map (fun v => match snd v with VPending => (fst v, VStale) | _ => v end) (vars s)) (next s), ONone)
+        (* a running generator stays bound to the dropped graph: continuing it is outside the model *)
+        (ST (live s) (user s) empty_reg (vars s)
+            (map (fun e => match e with
+                           | Some e => Some (if e_started e then EV (e_T e) true true (e_classes e) (e_cur e) (e_seen e) else e)
+                           | None => None end) (evals s)) (next s), ONone)
     end.
 
   Fixpoint run (s : st) (h : list op) : st * list out :=
@@ -225,7 +286,7 @@ Section Hier.
     | Drop x => existsb (Nat.eqb x) (user s)
     | Relate a f b ia ib =>
         adm_ensure (live s) (g s) a ia && adm_ensure (live s) (fst (ensure (live s) (g s) a ia)) b ib
-    | EvalV k => match nth_error (vars s) k with Some (_, VStale) => false | _ => true end
+    | NextV n _ => match nth_error (evals s) n with Some (Some e) => negb (e_stale e) | _ => true end
     | _ => true
     end.
 
